@@ -235,6 +235,24 @@ def gen_harness():
     return {"const_names": names, "str_fns": strfns, "string_fns": stringfns, "structs": structs}
 
 
+TOSTRING_RE = re.compile(r"pub\s+fn\s+(\w+_to_string)\s*\(\s*(\w+)\s*:\s*(\w+)\s*\)\s*->\s*String\s*\{\s*match\s+(\w+)\s*\(\s*(\w+)\s*\)\s*\{\s*"
+                         r"Some\s*\(\s*(\w+)\s*\)\s*=>\s*(\w+)\.to_string\(\)\s*,\s*None\s*=>\s*format!\(\s*\"([^\"{}]*)\(\{(\w+):#x\}\)\"\s*\)\s*,?\s*\}\s*\}")
+
+
+def parse_tostring(src):
+    """the `*_to_string` wrappers of the shape  match f_to_str(v) { Some(s) => s.to_string(), None => format!("p({v:#x})") }
+    -> ([(fn, argument type, inner to_str function, prefix)], [names of *_to_string functions of any other shape])"""
+    src = strip_comments(src)
+    out, seen = [], set()
+    for m in TOSTRING_RE.finditer(src):
+        fn, arg, ty, inner, a2, sv, sv2, prefix, a3 = m.groups()
+        if arg == a2 == a3 and sv == sv2:
+            out.append((fn, ty, inner, prefix))
+            seen.add(fn)
+    other = [f for f in re.findall(r"pub\s+fn\s+(\w+_to_string)\s*\(", src) if f not in seen]
+    return out, other
+
+
 def generate():
     consts, skipped = parse_consts(open(os.path.join(REPO, "src", "abi.rs")).read())
     env = {n: v for n, _, v in consts}
@@ -252,6 +270,11 @@ def generate():
     t.append(";\n".join("  (%s, (%s, [%s]))" % (coq_str(fn), coq_str(ty), "; ".join("(%s, %s)" % (coq_str(c), coq_str(s)) for c, s in arms))
                         for fn, ty, arms in fns))
     t.append("].")
+    sfns, sother = parse_tostring(open(os.path.join(REPO, "src", "to_str.rs")).read())
+    t.append("(* *_to_string wrapper, (argument type, (the *_to_str function it consults, prefix of its hexadecimal fallback)) *)")
+    t.append("Definition to_string_fns : list (string * (string * (string * string))) := [")
+    t.append(";\n".join("  (%s, (%s, (%s, %s)))" % (coq_str(fn), coq_str(ty), coq_str(inner), coq_str(px)) for fn, ty, inner, px in sfns))
+    t.append("].")
     write_if_changed(os.path.join(g, "ToStr.v"), "\n".join(t) + "\n")
     c = [HDR, "From Coq Require Import List String NArith.", "Require Import V.Ref.RefLayout.", "Import ListNotations.", "Open Scope string_scope.",
          "(* struct, fields in declaration order *)", "Definition c_structs : list (string * layout) := ["]
@@ -268,7 +291,7 @@ def generate():
     c.append(";\n".join(rows))
     c.append("].")
     write_if_changed(os.path.join(g, "CStructs.v"), "\n".join(c) + "\n")
-    return {"consts": consts, "skipped": skipped, "fns": fns, "structs": structs, "layouts": layouts}
+    return {"consts": consts, "skipped": skipped, "fns": fns, "structs": structs, "layouts": layouts, "string_fns": sfns, "string_other": sother}
 
 
 if __name__ == "__main__":
